@@ -238,6 +238,11 @@ def oracle_sweep(ctx, o):
         # the swept setup against a setup constructed AFRESH from a configuration (SPDCConfig with the two values -> try_as_spdc; no sweep
         # setter involved): configuration and direction-dependent observables (delta k, spectrum value at the centre)
         fr = it.get("fresh") or {}
+        # a configuration is converted crystal first, beams second: when the FIRST swept path reads state that the SECOND one changes,
+        # the sweep's documented order (first path first) and a fresh configuration legitimately differ — compare with the
+        # individually constructed setups only
+        if PATHS[p1][1] in ("external", "poling"):
+            fr = {}
         if "cfg" in fr:
             d = cfg_diff(fr["cfg"], cfg)
             if d:
@@ -497,7 +502,8 @@ def run(ctx):
                        "periodically poled KTP with Gaussian apodization, auto period; non-collinear BBO with explicit idler), each applied through a single-point SPDCIter; "
                        "plus periodically poled LiNbO3 type-0 with Bartlett apodization, explicit period and an external signal angle; ~95 unknown paths (neighbouring config fields, unit typos, case / character mutations of every valid path) in both positions; "
                        "beam angles incl. +-180, +-360, -0.0, 270, 720.5 (documented normalisation); two-parameter sweeps over 8 path pairs x shapes incl. 1xN, Nx1, 1x1 "
-                       "and 8 NON-COMMUTING pairs (crystal angle / temperature / wavelength first, external angle or poling period second) on 2 bases each, every swept "
+                       "and 14 NON-COMMUTING pairs (crystal angle / temperature / wavelength first, external angle or poling period second, AND the reverse order, "
+                       "where each grid point must start from a fresh clone of the base) on 2 bases each, every swept "
                        "setup compared with the setup built individually through the public API, external angles read back through Snell, poling sign re-derived; distinct = distinct (base, path, value bits) / path / (pair, shape)")
     ctx.cov["clauses"] = {
         "only the named field changes (all 25 paths)": "proved over the generated table (record-level frame) + measured on SPDC::as_config",
